@@ -393,7 +393,11 @@ def concretize_type(t, reg: Registry):
     if tag == "alias695":
         key = jkey(t)
         if key not in reg.by_def:
-            reg.by_def[key] = typing.TypeAliasType(reg._pyname(t[1]), concretize_type(t[2], reg))      # what `type Name = T` creates
+            # a real `type Name = T` statement executed in the universe's module (the alias is bound there under its name)
+            pyname = reg._pyname(t[1])
+            reg.module.__dict__[pyname + "__value"] = concretize_type(t[2], reg)
+            exec(f"type {pyname} = {pyname}__value", reg.module.__dict__)
+            reg.by_def[key] = reg.module.__dict__[pyname]
         return reg.by_def[key]
     if tag == "final":
         return typing.Final[concretize_type(t[1], reg)]
